@@ -709,6 +709,20 @@ pub fn run_part(scale: &str, part: &str, rep: &mut Report) {
             rep.merge(Report::from_json(&v));
         }
         None => {
+            // the part announced a hang of the subject (watchdog) or was killed by a signal / aborted: that is the
+            // subject's doing, not the machinery's - a violation attributed to the part as a whole
+            use std::os::unix::process::ExitStatusExt;
+            let hang = stdout.lines().any(|l| l.starts_with("WORKER-HANG"));
+            if hang || out.status.signal().is_some() {
+                rep.evaluations += 1;
+                rep.violate(Violation {
+                    sig: json!({"kind": if hang { "hang" } else { "abort_or_signal" }, "part": part}),
+                    detail: format!("the {part} part (build {scale}) ended by {} before reporting: {}", if hang { "a call that did not return within the watchdog period".to_string() } else { format!("{:?}", out.status) }, String::from_utf8_lossy(&out.stderr).chars().rev().take(300).collect::<Vec<_>>().into_iter().rev().collect::<String>()),
+                    replay: json!({"part": part, "scale": scale}),
+                    weight: 0,
+                });
+                return;
+            }
             eprintln!(
                 "machinery: part {part} on build {scale} gave no report (status {:?})\nstdout: {}\nstderr: {}",
                 out.status,
